@@ -376,6 +376,7 @@ func (c *Ctx) configSinks() {
 		return
 	}
 	sinks := map[string]map[string]bool{}
+	cmpSites := map[string]map[*ssa.BinOp]bool{} // field -> the comparison instructions the whole value reaches
 	add := func(f, s string) {
 		if sinks[f] == nil {
 			sinks[f] = map[string]bool{}
@@ -445,6 +446,10 @@ func (c *Ctx) configSinks() {
 				if isCmp(op) {
 					// config is on the right after normalisation:  other op' cfg
 					add(fld, "cmp: "+c.Path(other, nil)+" "+flipOp(op).String()+" cfg")
+					if cmpSites[fld] == nil {
+						cmpSites[fld] = map[*ssa.BinOp]bool{}
+					}
+					cmpSites[fld][x] = true
 				} else {
 					add(fld, "arith: "+c.Path(other, nil)+" "+x.Op.String()+" cfg")
 					follow(fld, x, d+1, seen)
@@ -533,6 +538,11 @@ func (c *Ctx) configSinks() {
 		"Patches":                {"element == value"},
 		"SignatureAlgorithms":    {"element == value"},
 		"KeyAlgorithms":          {"element == value"},
+	}
+	// each size limit gates one thing, once: a second comparison of the same limit (with some other length) is a gate
+	// the protocol does not have — e.g. the decoded-size limit applied to an encoded text
+	for _, f := range []string{"MaxOperationSize", "MaxOperationHashLength", "MaxDeltaSize", "NonceSize"} {
+		c.Check("C07.K1", "sink:"+f+":one-comparison", len(cmpSites[f]) == 1, token.NoPos, fmt.Sprintf("Protocol.%s is compared at %d place(s) (expected exactly one)", f, len(cmpSites[f])))
 	}
 	var flds []string
 	for f := range sinks {
